@@ -135,7 +135,32 @@ def spell_unknown(sp, inner, r):
     return opaque(G.r_rule(inner, r))
 
 
-SUPPORTED = ('style', 'comment', 'unknown')
+def spell_href(sp, h, form):
+    """form: 'string' | 'url' | 'urlq' (c02_gen) -> SHref"""
+    r = sp.rng
+    q = r.choice(['dq', 'sq']) if sp.level >= 3 else 'dq'
+    plain = bool(h) and not any(c in h for c in ' \t\n\r\f\'"()\\')
+    if form == 'string' or '\\' in h:
+        return ('str', q, h)
+    up = ''.join(r.choice('01') for _ in range(3)) if sp.level >= 3 else '000'
+    pre = sp.ws() if sp.level >= 1 and r.random() < 0.3 else ''
+    post = sp.ws() if sp.level >= 1 and r.random() < 0.3 else ''
+    if form == 'url' and plain:
+        return ('url', up, pre, post, None, h)
+    return ('url', up, pre, post, q, h)
+
+
+def spell_page_block(sp, inner, decls, margins):
+    r = sp.rng
+    blk = spell_block(sp, inner, decls)
+    items = [('item', i) for i in blk['items']]
+    for m, ds in margins:
+        mb = ('margin', m[1:], sp.mask(m[1:]), sp.gap(), spell_block(sp, inner, ds, comments=True), sp.wgap())
+        items.insert(r.randint(0, len(items)), mb)
+    return {'lead': blk['lead'], 'items': items, 'last': blk['last']}
+
+
+SUPPORTED = ('style', 'comment', 'unknown', 'media', 'fontface', 'page')
 
 
 def spell_rule(sp, inner, r):
@@ -146,20 +171,64 @@ def spell_rule(sp, inner, r):
         return ('style', spell_sel(sp, inner, r[1]), spell_block(sp, inner, r[2]), sp.wgap())
     if k == 'unknown':
         return ('unknown', spell_unknown(sp, inner, r), sp.wgap())
+    if k == 'media':
+        return ('media', sp.mask('media', True), sp.gap(need=True), opaque(G.r_mqs(inner, r[1])), sp.gap(), sp.wgap(),
+                [spell_rule(sp, inner, x) for x in r[2]], sp.wgap())
+    if k == 'fontface':
+        return ('fontface', sp.mask('font-face', True), sp.gap(), spell_block(sp, inner, r[1]), sp.wgap())
+    if k == 'page':
+        _, pseudo, decls, margins = r
+        name = sp.rng.choice([None, None, None, 'cover']) if sp.level >= 3 else None
+        mid = ['m'] if (name and sp.level >= 2 and sp.rng.random() < 0.3) else []
+        sel = (name, mid, pseudo)
+        # with an empty selector the two gaps would be one in the text
+        return ('page', sp.mask('page', True), sp.gap(need=bool(name)), sel, sp.gap() if (name or pseudo) else [],
+                spell_page_block(sp, inner, decls, margins), sp.wgap())
+    raise ValueError(k)
+
+
+def spell_pre(sp, inner, r):
+    """a statement of the @import / @namespace section"""
+    k = r[0]
+    if k == 'import':
+        _, href, form, qs = r
+        mq = (opaque(G.r_mqs(inner, qs)), sp.gap()) if qs else None
+        return ('import', sp.mask('import', True), sp.gap(need=True), spell_href(sp, href, form),
+                sp.gap(need=bool(mq)), mq, sp.wgap())
+    if k == 'namespace':
+        _, pre, uri, asurl = r
+        pfx = (pre, sp.gap(need=True)) if pre else None
+        return ('namespace', sp.mask('namespace', True), sp.gap(need=True), pfx,
+                spell_href(sp, uri, 'urlq' if asurl else 'string'), sp.gap(), sp.wgap())
+    if k == 'comment':
+        return ('comment', r[1], sp.wgap())
     raise ValueError(k)
 
 
 def supported(ast):
-    if any(r[0] == 'namespace' for r in ast) and 'namespace' not in SUPPORTED:
-        return []          # selectors use the declared prefixes
-    return [r for r in ast if r[0] in SUPPORTED]
+    return list(ast)
 
 
 def spell_sheet(ast, rng, level, inner_level):
-    """-> spelled sheet (all rules of `ast` must be of a supported kind)"""
+    """-> spelled sheet"""
     sp = Sp(rng, level)
     inner = G.Spelling(random.Random(rng.getrandbits(32)), inner_level) if inner_level else G.Spelling(None)
-    return {'lead': sp.wgap(), 'rules': [spell_rule(sp, inner, r) for r in ast]}
+    charset, imports, namespaces, rules = None, [], [], []
+    for r in ast:
+        k = r[0]
+        if k == 'charset':
+            charset = (rng.choice(['dq', 'sq']) if level >= 3 else 'dq', r[1])
+        elif k == 'import':
+            if level >= 2 and rng.random() < 0.1:
+                imports.append(spell_pre(sp, inner, ('comment', ' between imports ')))
+            imports.append(spell_pre(sp, inner, r))
+        elif k == 'namespace':
+            if level >= 2 and rng.random() < 0.1:
+                namespaces.append(spell_pre(sp, inner, ('comment', 'ns')))
+            namespaces.append(spell_pre(sp, inner, r))
+        else:
+            rules.append(spell_rule(sp, inner, r))
+    return {'charset': charset, 'lead': sp.wgap(), 'imports': imports, 'namespaces': namespaces, 'rules': rules}
 
 
 def wellformed(ss):
@@ -167,14 +236,31 @@ def wellformed(ss):
     def block_ok(b):
         ds = [i[1] for i in b['items'] if i[0] == 'decl'] + ([b['last']] if b['last'] else [])
         return all(is_core(d['value']) for d in ds)
-    for r in ss['rules']:
-        if r[0] == 'style':
-            if not (is_core(r[1]['first']) and all(is_core(c) for _, c, _ in r[1]['more']) and block_ok(r[2])):
-                return False
-        elif r[0] == 'unknown':
-            if not is_core(r[1]):
-                return False
-    return True
+
+    def rule_ok(r):
+        k = r[0]
+        if k == 'style':
+            return is_core(r[1]['first']) and all(is_core(c) for _, c, _ in r[1]['more']) and block_ok(r[2])
+        if k == 'unknown':
+            return is_core(r[1])
+        if k == 'media':
+            return is_core(r[3]) and all(rule_ok(x) for x in r[6])
+        if k == 'fontface':
+            return block_ok(r[3])
+        if k == 'page':
+            b = r[5]
+            for it in b['items']:
+                if it[0] == 'margin':
+                    if not block_ok(it[4]):
+                        return False
+                elif it[1][0] == 'decl' and not is_core(it[1][1]['value']):
+                    return False
+            return not b['last'] or is_core(b['last']['value'])
+        return True
+    for i in ss['imports']:
+        if i[0] == 'import' and i[5] and not is_core(i[5][0]):
+            return False
+    return all(rule_ok(r) for r in ss['rules'])
 
 
 # -- text ----------------------------------------------------------------------------------------------
@@ -215,6 +301,43 @@ def t_sel(s):
     return s['first']['text'] + t_gap(s['post']) + ''.join(',' + t_gap(a) + c['text'] + t_gap(b) for a, c, b in s['more'])
 
 
+QUOTE = {'dq': '"', 'sq': "'"}
+
+
+def t_quote(q, h):
+    c = QUOTE[q]
+    return c + h.replace(c, '\\' + c) + c
+
+
+def t_href(h):
+    if h[0] == 'str':
+        return t_quote(h[1], h[2])
+    _, up, pre, post, q, txt = h
+    word = ''.join(c.upper() if u == '1' else c for c, u in zip('url', up))
+    return word + '(' + pre + (t_quote(q, txt) if q else txt) + post + ')'
+
+
+def t_page_item(it):
+    if it[0] == 'margin':
+        _, n, m, g, blk, w = it
+        return '@' + spell_name(n, m) + t_gap(g) + '{' + t_block(blk) + '}' + t_wgap(w)
+    return t_item(it[1])
+
+
+def t_page_block(b):
+    return t_wgap(b['lead']) + ''.join(t_page_item(i) for i in b['items']) + (t_decl(b['last']) if b['last'] else '')
+
+
+def t_page_sel(sel):
+    name, mid, pseudo = sel
+    s = ''
+    if name:
+        s += name + ''.join('/*' + c + '*/' for c in mid)
+    if pseudo:
+        s += ':' + pseudo
+    return s
+
+
 def t_rule(r):
     k = r[0]
     if k == 'comment':
@@ -223,11 +346,38 @@ def t_rule(r):
         return t_sel(r[1]) + '{' + t_block(r[2]) + '}' + t_wgap(r[3])
     if k == 'unknown':
         return r[1]['text'] + t_wgap(r[2])
+    if k == 'media':
+        _, m, g1, mq, g2, lead, rules, w = r
+        return '@' + spell_name('media', m) + t_gap(g1) + mq['text'] + t_gap(g2) + '{' + t_wgap(lead) + \
+            ''.join(t_rule(x) for x in rules) + '}' + t_wgap(w)
+    if k == 'fontface':
+        _, m, g1, blk, w = r
+        return '@' + spell_name('font-face', m) + t_gap(g1) + '{' + t_block(blk) + '}' + t_wgap(w)
+    if k == 'page':
+        _, m, g0, sel, g1, blk, w = r
+        return '@' + spell_name('page', m) + t_gap(g0) + t_page_sel(sel) + t_gap(g1) + '{' + t_page_block(blk) + '}' + t_wgap(w)
+    raise ValueError(k)
+
+
+def t_pre(r):
+    k = r[0]
+    if k == 'comment':
+        return '/*' + r[1] + '*/' + t_wgap(r[2])
+    if k == 'import':
+        _, m, g1, href, g2, mq, w = r
+        return '@' + spell_name('import', m) + t_gap(g1) + t_href(href) + t_gap(g2) + \
+            ((mq[0]['text'] + t_gap(mq[1])) if mq else '') + ';' + t_wgap(w)
+    if k == 'namespace':
+        _, m, g1, pfx, uri, g2, w = r
+        return '@' + spell_name('namespace', m) + t_gap(g1) + ((pfx[0] + t_gap(pfx[1])) if pfx else '') + \
+            t_href(uri) + t_gap(g2) + ';' + t_wgap(w)
     raise ValueError(k)
 
 
 def text(ss):
-    return t_wgap(ss['lead']) + ''.join(t_rule(r) for r in ss['rules'])
+    cs = ('@charset ' + t_quote(*ss['charset']) + ';') if ss['charset'] else ''
+    return cs + t_wgap(ss['lead']) + ''.join(t_pre(r) for r in ss['imports']) + \
+        ''.join(t_pre(r) for r in ss['namespaces']) + ''.join(t_rule(r) for r in ss['rules'])
 
 
 # -- s-expression for the driver --------------------------------------------------------------------------
@@ -285,6 +435,33 @@ def x_sel(s):
                                  ' '.join('( %s %s %s )' % (x_gap(a), x_toks(c), x_gap(b)) for a, c, b in s['more']))
 
 
+def x_wschars(chars):
+    return '( ' + ' '.join(WS[c] for c in chars) + ' )'
+
+
+def x_href(h):
+    if h[0] == 'str':
+        return '( str %s %s )' % (h[1], enc(h[2]))
+    _, up, pre, post, q, txt = h
+    return '( url %s %s %s %s %s )' % (up, x_wschars(pre), x_wschars(post), q or 'none', enc(txt))
+
+
+def x_opt(v):
+    return enc(v) if v is not None else 'none'
+
+
+def x_page_item(it):
+    if it[0] == 'margin':
+        _, n, m, g, blk, w = it
+        return '( margin %s %s %s %s %s )' % (enc(n), x_mask(m), x_gap(g), x_block(blk), x_wgap(w))
+    return x_item(it[1])
+
+
+def x_page_block(b):
+    return '( %s ( %s ) %s )' % (x_wgap(b['lead']), ' '.join(x_page_item(i) for i in b['items']),
+                                 x_decl(b['last']) if b['last'] else 'none')
+
+
 def x_rule(r):
     k = r[0]
     if k == 'comment':
@@ -293,11 +470,40 @@ def x_rule(r):
         return '( style %s %s %s )' % (x_sel(r[1]), x_block(r[2]), x_wgap(r[3]))
     if k == 'unknown':
         return '( unknown %s %s )' % (x_toks(r[1]), x_wgap(r[2]))
+    if k == 'media':
+        _, m, g1, mq, g2, lead, rules, w = r
+        return '( media %s %s %s %s %s ( %s ) %s )' % (x_mask(m), x_gap(g1), x_toks(mq), x_gap(g2), x_wgap(lead),
+                                                     ' '.join(x_rule(x) for x in rules), x_wgap(w))
+    if k == 'fontface':
+        _, m, g1, blk, w = r
+        return '( fontface %s %s %s %s )' % (x_mask(m), x_gap(g1), x_block(blk), x_wgap(w))
+    if k == 'page':
+        _, m, g0, sel, g1, blk, w = r
+        xs = '( %s ( %s ) %s )' % (x_opt(sel[0]), ' '.join(enc(c) for c in sel[1]), x_opt(sel[2]))
+        return '( page %s %s %s %s %s %s )' % (x_mask(m), x_gap(g0), xs, x_gap(g1), x_page_block(blk), x_wgap(w))
+    raise ValueError(k)
+
+
+def x_pre(r):
+    k = r[0]
+    if k == 'comment':
+        return '( comment %s %s )' % (enc(r[1]), x_wgap(r[2]))
+    if k == 'import':
+        _, m, g1, href, g2, mq, w = r
+        xm = '( %s %s )' % (x_toks(mq[0]), x_gap(mq[1])) if mq else 'none'
+        return '( import %s %s %s %s %s %s )' % (x_mask(m), x_gap(g1), x_href(href), x_gap(g2), xm, x_wgap(w))
+    if k == 'namespace':
+        _, m, g1, pfx, uri, g2, w = r
+        xp = '( %s %s )' % (enc(pfx[0]), x_gap(pfx[1])) if pfx else 'none'
+        return '( namespace %s %s %s %s %s %s )' % (x_mask(m), x_gap(g1), xp, x_href(uri), x_gap(g2), x_wgap(w))
     raise ValueError(k)
 
 
 def sx(ss):
-    return '%s ( %s )' % (x_wgap(ss['lead']), ' '.join(x_rule(r) for r in ss['rules']))
+    cs = '( %s %s )' % (ss['charset'][0], enc(ss['charset'][1])) if ss['charset'] else 'none'
+    return '%s %s ( %s ) ( %s ) ( %s )' % (cs, x_wgap(ss['lead']), ' '.join(x_pre(r) for r in ss['imports']),
+                                          ' '.join(x_pre(r) for r in ss['namespaces']),
+                                          ' '.join(x_rule(r) for r in ss['rules']))
 
 
 # -- erase: the abstract sheet, in the JSON shape of the driver ------------------------------------------
@@ -328,6 +534,19 @@ def e_block(b):
     return out
 
 
+def squeeze(toks):
+    return [t for t in toks if t[0] not in ('S', 'COMMENT')]
+
+
+def e_decl_sq(d):
+    return {'k': 'decl', 'name': enc(d['name']), 'value': [[mtype(t[0]), enc(t[1])] for t in squeeze(d['value']['toks'])],
+            'prio': enc(d['prio'][1]) if d['prio'] else None}
+
+
+def e_block_sq(b):
+    return [e_decl_sq(i[1]) for i in b['items'] if i[0] == 'decl'] + ([e_decl_sq(b['last'])] if b['last'] else [])
+
+
 def e_rule(r):
     k = r[0]
     if k == 'comment':
@@ -337,8 +556,30 @@ def e_rule(r):
                 'items': e_block(r[2])}
     if k == 'unknown':
         return {'k': 'unknown', 'toks': j_toks(r[1], True)}
+    if k == 'media':
+        return {'k': 'media', 'mq': j_toks(r[3]), 'name': None, 'rules': [e_rule(x) for x in r[6]]}
+    if k == 'fontface':
+        return {'k': 'fontface', 'items': e_block(r[3])}
+    if k == 'page':
+        sel, b = r[3], r[5]
+        items = e_block({'items': [i[1] for i in b['items'] if i[0] == 'item'], 'last': b['last']})
+        margins = [{'name': enc('@' + i[1]), 'items': e_block_sq(i[4])} for i in b['items'] if i[0] == 'margin']
+        return {'k': 'page', 'name': enc(sel[0]) if sel[0] is not None else None,
+                'pseudo': enc(sel[2]) if sel[2] is not None else None, 'items': items, 'margins': margins}
+    raise ValueError(k)
+
+
+def e_pre(r):
+    k = r[0]
+    if k == 'comment':
+        return {'k': 'comment', 'body': enc(r[1])}
+    if k == 'import':
+        return {'k': 'import', 'href': enc(r[3][-1]), 'mq': j_toks(r[5][0]) if r[5] else None, 'name': None}
+    if k == 'namespace':
+        return {'k': 'namespace', 'pfx': enc(r[3][0] if r[3] else ''), 'uri': enc(r[4][-1])}
     raise ValueError(k)
 
 
 def erase(ss):
-    return [e_rule(r) for r in ss['rules']]
+    cs = [{'k': 'charset', 'enc': enc(ss['charset'][1])}] if ss['charset'] else []
+    return cs + [e_pre(r) for r in ss['imports']] + [e_pre(r) for r in ss['namespaces']] + [e_rule(r) for r in ss['rules']]
